@@ -24,7 +24,7 @@ Theorem C10_verify_shifted_root : forall (H1 H2 : bytes -> bytes) m heap data v 
 Proof. exact verify_core_shift. Qed.
 Print Assumptions C10_verify_shifted_root.
 
-(* acceptance as an explicit predicate: size conditions, and the buffer parses as w || r* || gamma with
+(* acceptance as an explicit predicate: size conditions, nonzero square, and the buffer parses as w || r* || gamma with
    w = h(data || r* xor g1(w)) and gamma = g2(w) *)
 Theorem C10_verify_accept_iff : forall (H1 H2 : bytes -> bytes) m heap data v,
   verify_core H1 H2 m heap data v = Accept <-> verify_accepts H1 H2 m heap data v.
@@ -40,11 +40,22 @@ Theorem C10_verify_text_accept_implies : forall (H1 H2 : bytes -> bytes) m ksig 
 Proof. exact verify_text_accept_implies. Qed.
 Print Assumptions C10_verify_text_accept_implies.
 
-(* export_fits (fix b19627f): the bytes mpz_export writes in verify never exceed the mnsize+1024 byte buffer *)
+(* export_fits (fixes b19627f, 5f58cf8): the bytes mpz_export writes in verify never exceed the mnsize+1024 byte buffer,
+   and the verdict never depends on what the uninitialised buffer held *)
 Theorem C10_verify_export_fits : forall (H1 H2 : bytes -> bytes) m heap data v,
   verify_core H1 H2 m heap data v <> Overflow.
 Proof. exact verify_core_no_overflow. Qed.
 Print Assumptions C10_verify_export_fits.
+
+Theorem C10_verify_heap_irrelevant : forall (H1 H2 : bytes -> bytes) m heap heap' data v, verify_core H1 H2 m heap data v = verify_core H1 H2 m heap' data v.
+Proof. exact verify_core_heap_irrelevant. Qed.
+Print Assumptions C10_verify_heap_irrelevant.
+
+(* a signature value whose square is zero (0, the modulus, ...) is refused (fix 5f58cf8) *)
+Theorem C10_zero_square_refused : forall (H1 H2 : bytes -> bytes) m heap data v,
+  ((v * v) mod Z.abs m = 0)%Z -> verify_core H1 H2 m heap data v = Reject.
+Proof. exact verify_core_zero_square. Qed.
+Print Assumptions C10_zero_square_refused.
 
 (* tamper evidence of the padded value: two nonzero word-sized squares leaving the same bytes in the buffer are equal, so
    a different square needs different (w, r*, gamma) -- i.e. new oracle answers (named limit: no collision bound is proved) *)
@@ -78,13 +89,13 @@ Theorem C10_all_roots_verify : forall H1 H2 : bytes -> bytes,
 Proof. exact roots_all_verify. Qed.
 Print Assumptions C10_all_roots_verify.
 
-(* encrypt then decrypt, for moduli up to 8199 bits (mnsize <= 1024), every 20-byte plaintext, every coin string for which
-   the padded value x is a nonzero unit square with x among the roots and no earlier root passing the redundancy test *)
-Theorem C10_encrypt_decrypt_ok_partial : forall H1 H2 : bytes -> bytes,
+(* encrypt then decrypt, for every modulus size passing the padding-size tests, every 20-byte plaintext, every coin string for
+   which the padded value x is a nonzero unit square with x among the roots and no earlier root passing the redundancy test *)
+Theorem C10_encrypt_decrypt_ok : forall H1 H2 : bytes -> bytes,
   (forall x, length (H1 x) = md) -> (forall x, length (H2 x) = md) ->
   (forall x, Forall byte (H1 x)) -> (forall x, Forall byte (H2 x)) ->
   forall (qr : Z -> bool) (roots : Z -> list Z) m ksig value coins t,
-  kid_ok ksig -> (mnsize_of m <= slack)%nat ->
+  kid_ok ksig ->
   length value = S0 -> Forall byte value -> (mnsize_of m - 2 * S0 <= length coins)%nat -> Forall byte coins ->
   encrypt_text H1 H2 m ksig value coins = Some t ->
   let x := saep_pad H1 H2 m value coins in
@@ -92,8 +103,14 @@ Theorem C10_encrypt_decrypt_ok_partial : forall H1 H2 : bytes -> bytes,
   x <> 0%Z -> qr c = true ->
   (exists pre post, roots c = pre ++ x :: post /\ Forall (spurious_free H1 H2 (mnsize_of m)) pre) ->
   forall heap, decrypt_text H1 H2 qr roots m ksig heap t = DecValue value.
-Proof. exact encrypt_decrypt_ok_partial. Qed.
-Print Assumptions C10_encrypt_decrypt_ok_partial.
+Proof. exact encrypt_decrypt_ok. Qed.
+Print Assumptions C10_encrypt_decrypt_ok.
+
+(* export_fits for decrypt (fix 288af9c), every modulus size, every ciphertext text, every root oracle *)
+Theorem C10_decrypt_export_fits : forall (H1 H2 : bytes -> bytes) (qr : Z -> bool) (roots : Z -> list Z) m ksig heap t,
+  decrypt_text H1 H2 qr roots m ksig heap t <> DecOverflow.
+Proof. exact decrypt_text_no_overflow. Qed.
+Print Assumptions C10_decrypt_export_fits.
 
 (* key validation: what an accepting check() establishes (Jacobi symbol and primality test are the oracles of the code) *)
 Theorem C10_check_accept_implies : forall (H1 H2 : bytes -> bytes) (jacobi : Z -> Z -> Z) (is_prime : Z -> bool) fuel heap k,
@@ -116,22 +133,6 @@ Theorem C10_seckey_text_roundtrip : forall k p q, nobar (k_name k) -> nobar (k_e
 Proof. exact import_export_sec. Qed.
 Print Assumptions C10_seckey_text_roundtrip.
 
-(* ---- refuted full statements (defects of the code, see docs/C10.md) ------------------------------------------ *)
-(* "a signature whose value was replaced by 0 is refused" is false: a zero square makes mpz_export write nothing, the
-   verdict is computed from what the previous use left in the (uninitialised) buffer *)
-Theorem C10_zero_value_refused_refuted : forall (H1 H2 : bytes -> bytes) m heap data v,
-  verify_core H1 H2 m heap data v = Accept ->
-  let heap' := buffer_after heap (export_bytes (mnsize_of m) ((v * v) mod Z.abs m)) in
-  verify_core H1 H2 m heap' data 0 = Accept.
-Proof. exact stale_buffer_forgery. Qed.
-Print Assumptions C10_zero_value_refused_refuted.
-
-(* "decrypt never writes past its buffer" is false above 8199 bits: a root of more than 8*mnsize bits is exported as two words *)
-Theorem C10_decrypt_export_fits_refuted : forall (H1 H2 : bytes -> bytes), exists s root heap,
-  (sizeinbase2 root / 8 <= Z.of_nat s)%Z /\ try_roots H1 H2 s heap [root] = DecOverflow.
-Proof. exact decrypt_overflow. Qed.
-Print Assumptions C10_decrypt_export_fits_refuted.
-
 (* ---- non-vacuity ---------------------------------------------------------------------------------------------- *)
 Definition Hc : bytes -> bytes := fun _ => repeat 1%N 32.
 Example C10_nonvacuous_hash : (forall x, length (Hc x) = md) /\ (forall x, Forall byte (Hc x)) /\ digest_nonzero Hc.
@@ -150,6 +151,8 @@ Example C10_nonvacuous_accept : verify_core Hc Hd ex_m [] [1; 2; 3]%N (2 ^ 302)%
 Proof. vm_compute. reflexivity. Qed.
 (* a changed value is refused; with a constant digest oracle changed data is NOT refused: refusing different data is exactly
    the oracle step that the theorems leave as a named limit *)
+Example C10_nonvacuous_zero : verify_core Hc Hd ex_m (repeat 1%N 2000) [1; 2; 3]%N ex_m = Reject.
+Proof. vm_compute. reflexivity. Qed.
 Example C10_nonvacuous_tamper : verify_core Hc Hd ex_m [] [1; 2; 4]%N (2 ^ 302)%Z = Accept /\
                                 verify_core Hc Hd ex_m [] [1; 2; 3]%N (2 ^ 302 + 1)%Z = Reject.
 Proof. split; vm_compute; reflexivity. Qed.
